@@ -9,7 +9,8 @@ subprocess.check_call(["git", "-C", wt, "checkout", "--", "."])
 subprocess.check_call(["git", "-C", wt, "checkout", "-q", "--detach", "main"])
 r = subprocess.run(["git", "-C", wt, "apply", patch])
 if r.returncode != 0:
-    subprocess.check_call(["git", "-C", wt, "apply", "--3way", patch])
+    print("PATCH DOES NOT APPLY")
+    sys.exit(3)
 env = dict(os.environ, VERIF_REPO=wt, VERIF_NO_EVIDENCE="1")
 if runs:
     env["VERIF_RUNS"] = runs
